@@ -1,7 +1,1491 @@
-//! (stub — to be filled in) suite `determ`.
-use crate::out::Out;
+//! suite `determ` (C16 — solving is deterministic).
+//!
+//! Every protocol line of this suite starts with `#det ` (oracle-only: there is no Lean-model
+//! counterpart; `selen_model` answers `-` and `bin/check` does not compare such lines).
+//!
+//! A line is `#det <call> | <statements>`: the statements are a complete, parseable description of
+//! a model built through the public API (int / intset / bool / float / unbounded variables,
+//! fluent comparisons with and/or/not, integer / float / boolean / reified linear constraints,
+//! alldiff / alleq / element / count / table / cardinality, result functions add … sum, boolean
+//! functions, reified comparisons, conversions); the call is one of `validate`, `registry`, `lp`,
+//! `solve`, `enum N`, `min v`, `max v`, `miniter v N`, `maxiter v N`.  The result line is the
+//! *complete* observable outcome: verdict, error text (Display and Debug), the value of every
+//! solver variable (hidden auxiliaries included; floats as `f64::to_bits`), the whole yielded
+//! sequence, the non-timing statistics (propagations, nodes, LP iterations …), which path answered
+//! (root LP / fast path), all registry queries and metadata, `Model::validate()` text, the
+//! extracted linear system and the LP it is converted to.
+//!
+//! Families (`family.*` in the stats): `csp` random integer models; `alldiff-invalid` ≥ 2
+//! AllDifferent constraints that fail validation (the SAME first error must be reported);
+//! `lp` float/mixed models with several `m.add(var,var)`, `x <= y`, float linear rows and an
+//! objective, so that the root LP step runs; `unbounded` declarations that need bound inference
+//! (incl. the deferred `x == c`); `bigdom` AllDifferent over domains wider than 128 values (the
+//! SparseSet half of `HybridGAC` and the cross propagation); `mixed` conversions, reification,
+//! booleans.  Most constraints are chosen to hold under a random witness assignment, so most
+//! models are satisfiable.
+//!
+//! Oracle (within one process): the model is built and the call is run TWICE, concurrently on two
+//! freshly spawned threads (std's `RandomState` draws new SipHash keys per thread and bumps them
+//! per map, so the two runs iterate every `HashMap`/`HashSet` differently), and the two result
+//! lines must be identical; a mismatch is `out.fail(line, "C16", "-", …)`.  Runs are cut by a
+//! deterministic work budget (hook H6: the `--budget`-th engine limit check reports the timeout),
+//! so cut runs stay comparable (`err Timeout`); a `--wall` ms watchdog abandons runs whose
+//! uninterruptible propagation takes too long: those lines read `time-limit` and are excluded
+//! ("as long as no time limit interferes").
+//! Across processes: `tools/determ_cross.sh` runs the suite in N processes with the same seed and
+//! compares the `.impl` files byte for byte.  Cases run on `--jobs` worker threads (default 4);
+//! the transcript does not depend on the scheduling.
+//!
+//! `--probe R` instead exercises the hash-ordered *public helper structs* that `solve` never
+//! reaches (`SparseSetGAC`, `BitSetGAC`, `HybridGAC`, `create_precision_propagators`), each R times
+//! on fresh structures, and prints the sorted set of distinct outcomes; more than one outcome is a
+//! tagged finding (`gac-sparseset-hash-order`, `precision-propagators-hash-order`).  With `R = 1`
+//! the single outcome is printed, so that `determ_cross.sh … probe` shows it differing across
+//! processes.
+//!
+//! `--replay-ops FILE` re-runs the `#det` lines of a transcript verbatim.
+use crate::out::{guarded, Out};
+use crate::rng::Rng;
+use selen::prelude as sp;
+use selen::prelude::{Constraint, ExprBuilder, Model, ModelExt, Solution, SolverError, Val, VarId};
+use selen::optimization::constraint_metadata::{ConstraintData, ConstraintId, ConstraintRegistry, ConstraintType};
+use std::fmt::Write as _;
 
-pub fn suite(_out: &mut Out, _seed: u64, _count: u64, _args: &[String]) {}
+const STREAM: u64 = 0xDE7E_0016_C0FF_EE16;
+/// engine iterations after which a run is cut (`--budget K`, 0 = no cut, only the 20 s wall clock)
+static BUDGET: std::sync::atomic::AtomicUsize = std::sync::atomic::AtomicUsize::new(600);
+/// wall-clock watchdog per call in ms (`--wall MS`)
+static WALL_MS: std::sync::atomic::AtomicUsize = std::sync::atomic::AtomicUsize::new(5000);
+
+// ------------------------------------------------------------------------------------------------
+// description language
+// ------------------------------------------------------------------------------------------------
+#[derive(Clone, Debug, PartialEq)]
+pub enum E {
+    V(usize),
+    I(i32),
+    F(f64),
+    B(u8, Box<E>, Box<E>),
+}
+
+impl E {
+    fn show(&self, s: &mut String) {
+        match self {
+            E::V(i) => { let _ = write!(s, "v{i}"); }
+            E::I(i) => { let _ = write!(s, "i{i}"); }
+            E::F(f) => { let _ = write!(s, "f{f:?}"); }
+            E::B(op, a, b) => {
+                s.push(*op as char);
+                s.push('(');
+                a.show(s);
+                s.push(',');
+                b.show(s);
+                s.push(')');
+            }
+        }
+    }
+    fn parse(b: &[u8], p: &mut usize) -> Option<E> {
+        let c = *b.get(*p)?;
+        *p += 1;
+        match c {
+            b'v' | b'i' | b'f' => {
+                let st = *p;
+                while *p < b.len() && b[*p] != b',' && b[*p] != b')' {
+                    *p += 1;
+                }
+                let t = std::str::from_utf8(&b[st..*p]).ok()?;
+                Some(match c {
+                    b'v' => E::V(t.parse().ok()?),
+                    b'i' => E::I(t.parse().ok()?),
+                    _ => E::F(t.parse().ok()?),
+                })
+            }
+            b'+' | b'-' | b'*' | b'/' | b'%' => {
+                if *b.get(*p)? != b'(' { return None; }
+                *p += 1;
+                let x = E::parse(b, p)?;
+                if *b.get(*p)? != b',' { return None; }
+                *p += 1;
+                let y = E::parse(b, p)?;
+                if *b.get(*p)? != b')' { return None; }
+                *p += 1;
+                Some(E::B(c, Box::new(x), Box::new(y)))
+            }
+            _ => None,
+        }
+    }
+}
+
+#[derive(Clone, Debug, PartialEq)]
+pub enum A {
+    N(i64),
+    F(f64),
+    L(Vec<i64>),
+    G(Vec<f64>),
+    T(Vec<Vec<i64>>),
+    X(E),
+}
+
+fn join<T>(v: &[T], sep: &str, f: impl Fn(&T) -> String) -> String {
+    v.iter().map(f).collect::<Vec<_>>().join(sep)
+}
+
+impl A {
+    fn show(&self) -> String {
+        match self {
+            A::N(n) => format!("n{n}"),
+            A::F(f) => format!("f{f:?}"),
+            A::L(l) => format!("l{}", join(l, ",", |x| x.to_string())),
+            A::G(l) => format!("g{}", join(l, ",", |x| format!("{x:?}"))),
+            A::T(t) => format!("t{}", join(t, "/", |r| join(r, ",", |x| x.to_string()))),
+            A::X(e) => {
+                let mut s = String::from("x");
+                e.show(&mut s);
+                s
+            }
+        }
+    }
+    fn parse(w: &str) -> Option<A> {
+        let (c, t) = (w.as_bytes().first().copied()?, &w[1..]);
+        fn list<T: std::str::FromStr>(t: &str) -> Option<Vec<T>> {
+            if t.is_empty() { return Some(vec![]); }
+            t.split(',').map(|x| x.parse().ok()).collect()
+        }
+        Some(match c {
+            b'n' => A::N(t.parse().ok()?),
+            b'f' => A::F(t.parse().ok()?),
+            b'l' => A::L(list(t)?),
+            b'g' => A::G(list(t)?),
+            b't' => A::T(if t.is_empty() { vec![] } else { t.split('/').map(list).collect::<Option<_>>()? }),
+            b'x' => {
+                let mut p = 0;
+                let e = E::parse(t.as_bytes(), &mut p)?;
+                if p != t.len() { return None; }
+                A::X(e)
+            }
+            _ => return None,
+        })
+    }
+}
+
+#[derive(Clone, Debug, PartialEq)]
+pub struct St {
+    op: String,
+    a: Vec<A>,
+}
+
+fn st(op: &str, a: Vec<A>) -> St {
+    St { op: op.to_string(), a }
+}
+
+fn show_model(s: &[St]) -> String {
+    join(s, " ; ", |x| {
+        let mut t = x.op.clone();
+        for a in &x.a {
+            t.push(' ');
+            t.push_str(&a.show());
+        }
+        t
+    })
+}
+
+fn parse_model(t: &str) -> Option<Vec<St>> {
+    let mut v = vec![];
+    for part in t.split(" ; ") {
+        let mut ws = part.split_whitespace();
+        let Some(op) = ws.next() else { continue };
+        let a: Option<Vec<A>> = ws.map(A::parse).collect();
+        v.push(St { op: op.to_string(), a: a? });
+    }
+    Some(v)
+}
+
+#[derive(Clone, Debug, PartialEq)]
+pub enum Call {
+    Validate,
+    Registry,
+    Lp,
+    Solve,
+    Enum(usize),
+    Min(usize),
+    Max(usize),
+    MinIter(usize, usize),
+    MaxIter(usize, usize),
+}
+
+impl Call {
+    fn show(&self) -> String {
+        match self {
+            Call::Validate => "validate".into(),
+            Call::Registry => "registry".into(),
+            Call::Lp => "lp".into(),
+            Call::Solve => "solve".into(),
+            Call::Enum(n) => format!("enum {n}"),
+            Call::Min(v) => format!("min {v}"),
+            Call::Max(v) => format!("max {v}"),
+            Call::MinIter(v, n) => format!("miniter {v} {n}"),
+            Call::MaxIter(v, n) => format!("maxiter {v} {n}"),
+        }
+    }
+    fn parse(t: &str) -> Option<Call> {
+        let w: Vec<&str> = t.split_whitespace().collect();
+        let n = |i: usize| -> Option<usize> { w.get(i)?.parse().ok() };
+        Some(match *w.first()? {
+            "validate" => Call::Validate,
+            "registry" => Call::Registry,
+            "lp" => Call::Lp,
+            "solve" => Call::Solve,
+            "enum" => Call::Enum(n(1)?),
+            "min" => Call::Min(n(1)?),
+            "max" => Call::Max(n(1)?),
+            "miniter" => Call::MinIter(n(1)?, n(2)?),
+            "maxiter" => Call::MaxIter(n(1)?, n(2)?),
+            _ => return None,
+        })
+    }
+    fn stat(&self) -> &'static str {
+        match self {
+            Call::Validate => "call.validate",
+            Call::Registry => "call.registry",
+            Call::Lp => "call.lp",
+            Call::Solve => "call.solve",
+            Call::Enum(_) => "call.enumerate",
+            Call::Min(_) => "call.minimize",
+            Call::Max(_) => "call.maximize",
+            Call::MinIter(..) => "call.minimize_and_iterate",
+            Call::MaxIter(..) => "call.maximize_and_iterate",
+        }
+    }
+}
+
+// ------------------------------------------------------------------------------------------------
+// building the real model
+// ------------------------------------------------------------------------------------------------
+fn new_model() -> Model {
+    // generous limit: a case that runs into it is reported as `timeout` and not compared
+    Model::with_config(sp::config::SolverConfig::default().with_timeout_ms(20000))
+}
+
+fn bex(e: &E, v: &[VarId]) -> Result<ExprBuilder, String> {
+    Ok(match e {
+        E::V(i) => ExprBuilder::from(*v.get(*i).ok_or("bad var")?),
+        E::I(c) => ExprBuilder::from(*c),
+        E::F(c) => ExprBuilder::from(*c),
+        E::B(op, a, b) => {
+            let (x, y) = (bex(a, v)?, bex(b, v)?);
+            match op {
+                b'+' => x.add(y),
+                b'-' => x.sub(y),
+                b'*' => x.mul(y),
+                b'/' => x.div(y),
+                _ => x.modulo(y),
+            }
+        }
+    })
+}
+
+fn cmp_of(op: i64, l: ExprBuilder, r: ExprBuilder) -> Constraint {
+    match op {
+        0 => l.eq(r),
+        1 => l.ne(r),
+        2 => l.lt(r),
+        3 => l.le(r),
+        4 => l.gt(r),
+        _ => l.ge(r),
+    }
+}
+
+struct Args<'a> {
+    a: &'a [A],
+    v: &'a [VarId],
+}
+
+impl<'a> Args<'a> {
+    fn n(&self, i: usize) -> Result<i64, String> {
+        match self.a.get(i) { Some(A::N(n)) => Ok(*n), _ => Err(format!("arg {i}: n expected")) }
+    }
+    fn i(&self, i: usize) -> Result<i32, String> {
+        i32::try_from(self.n(i)?).map_err(|_| "i32 expected".to_string())
+    }
+    fn f(&self, i: usize) -> Result<f64, String> {
+        match self.a.get(i) { Some(A::F(n)) => Ok(*n), _ => Err(format!("arg {i}: f expected")) }
+    }
+    fn l(&self, i: usize) -> Result<&'a [i64], String> {
+        match self.a.get(i) { Some(A::L(n)) => Ok(n), _ => Err(format!("arg {i}: l expected")) }
+    }
+    fn li(&self, i: usize) -> Result<Vec<i32>, String> {
+        self.l(i)?.iter().map(|x| i32::try_from(*x).map_err(|_| "i32 expected".to_string())).collect()
+    }
+    fn g(&self, i: usize) -> Result<&'a [f64], String> {
+        match self.a.get(i) { Some(A::G(n)) => Ok(n), _ => Err(format!("arg {i}: g expected")) }
+    }
+    fn t(&self, i: usize) -> Result<&'a [Vec<i64>], String> {
+        match self.a.get(i) { Some(A::T(n)) => Ok(n), _ => Err(format!("arg {i}: t expected")) }
+    }
+    fn x(&self, i: usize) -> Result<ExprBuilder, String> {
+        match self.a.get(i) { Some(A::X(e)) => bex(e, self.v), _ => Err(format!("arg {i}: x expected")) }
+    }
+    fn var(&self, i: usize) -> Result<VarId, String> {
+        let k = self.n(i)?;
+        self.v.get(k as usize).copied().ok_or_else(|| format!("arg {i}: no variable {k}"))
+    }
+    fn vars(&self, i: usize) -> Result<Vec<VarId>, String> {
+        self.l(i)?.iter().map(|k| self.v.get(*k as usize).copied().ok_or_else(|| format!("no variable {k}"))).collect()
+    }
+}
+
+/// apply one statement; result variables are appended to `v`
+fn apply(m: &mut Model, v: &mut Vec<VarId>, s: &St) -> Result<(), String> {
+    let vs = v.clone();
+    let a = Args { a: &s.a, v: &vs };
+    let mut push = |x: VarId| v.push(x);
+    match s.op.as_str() {
+        "int" => push(m.int(a.i(0)?, a.i(1)?)),
+        "uint" => push(m.int(i32::MIN, i32::MAX)),
+        "intlo" => push(m.int(a.i(0)?, i32::MAX)),
+        "inthi" => push(m.int(i32::MIN, a.i(0)?)),
+        "set" => push(m.intset(a.li(0)?)),
+        "bool" => push(m.bool()),
+        "float" => push(m.float(a.f(0)?, a.f(1)?)),
+        "ufloat" => push(m.float(f64::NEG_INFINITY, f64::INFINITY)),
+        "cmp" => { m.new(cmp_of(a.n(0)?, a.x(1)?, a.x(2)?)); }
+        "and" => { m.new(cmp_of(a.n(0)?, a.x(1)?, a.x(2)?).and(cmp_of(a.n(3)?, a.x(4)?, a.x(5)?))); }
+        "or" => { m.new(cmp_of(a.n(0)?, a.x(1)?, a.x(2)?).or(cmp_of(a.n(3)?, a.x(4)?, a.x(5)?))); }
+        "not" => { m.new(cmp_of(a.n(0)?, a.x(1)?, a.x(2)?).not()); }
+        "lin" => {
+            let (cs, xs, k) = (a.li(1)?, a.vars(2)?, a.i(3)?);
+            match a.n(0)? { 0 => m.lin_eq(&cs, &xs, k), 1 => m.lin_le(&cs, &xs, k), _ => m.lin_ne(&cs, &xs, k) }
+        }
+        "flin" => {
+            let (cs, xs, k) = (a.g(1)?, a.vars(2)?, a.f(3)?);
+            match a.n(0)? { 0 => m.lin_eq(cs, &xs, k), 1 => m.lin_le(cs, &xs, k), _ => m.lin_ne(cs, &xs, k) }
+        }
+        "linr" => {
+            let (cs, xs, k, b) = (a.li(1)?, a.vars(2)?, a.i(3)?, a.var(4)?);
+            match a.n(0)? { 0 => m.lin_eq_reif(&cs, &xs, k, b), 1 => m.lin_le_reif(&cs, &xs, k, b), _ => m.lin_ne_reif(&cs, &xs, k, b) }
+        }
+        "blin" => {
+            let (cs, xs, k) = (a.li(1)?, a.vars(2)?, a.i(3)?);
+            match a.n(0)? { 0 => m.bool_lin_eq(&cs, &xs, k), 1 => m.bool_lin_le(&cs, &xs, k), _ => m.bool_lin_ne(&cs, &xs, k) }
+        }
+        "alldiff" => { Model::alldiff(m, &a.vars(0)?); }
+        "alleq" => { Model::alleq(m, &a.vars(0)?); }
+        "elem" => { m.element(&a.vars(0)?, a.var(1)?, a.var(2)?); }
+        "count" => { Model::count(m, &a.vars(0)?, sp::int(a.i(1)?), a.var(2)?); }
+        "table" => {
+            let rows: Vec<Vec<Val>> = a.t(1)?.iter().map(|r| r.iter().map(|x| sp::int(*x as i32)).collect()).collect();
+            m.table(&a.vars(0)?, rows);
+        }
+        "card" => {
+            let (xs, val, n) = (a.vars(1)?, a.i(2)?, a.i(3)?);
+            match a.n(0)? { 0 => m.at_least(&xs, val, n), 1 => m.at_most(&xs, val, n), _ => m.exactly(&xs, val, n) };
+        }
+        "add" => push(m.add(a.var(0)?, a.var(1)?)),
+        "sub" => push(m.sub(a.var(0)?, a.var(1)?)),
+        "mul" => push(m.mul(a.var(0)?, a.var(1)?)),
+        "div" => push(m.div(a.var(0)?, a.var(1)?)),
+        "mod" => push(m.modulo(a.var(0)?, a.var(1)?)),
+        "addk" => push(m.add(a.var(0)?, sp::int(a.i(1)?))),
+        "mulk" => push(m.mul(a.var(0)?, sp::int(a.i(1)?))),
+        "faddk" => push(m.add(a.var(0)?, sp::float(a.f(1)?))),
+        "fmulk" => push(m.mul(a.var(0)?, sp::float(a.f(1)?))),
+        "abs" => push(m.abs(a.var(0)?)),
+        "min" => push(m.min(&a.vars(0)?).map_err(|e| format!("min: {e}"))?),
+        "max" => push(m.max(&a.vars(0)?).map_err(|e| format!("max: {e}"))?),
+        "sum" => push(m.sum(&a.vars(0)?)),
+        "band" => push(m.bool_and(&a.vars(0)?)),
+        "bor" => push(m.bool_or(&a.vars(0)?)),
+        "bnot" => push(m.bool_not(a.var(0)?)),
+        "bxor" => push(m.bool_xor(a.var(0)?, a.var(1)?)),
+        "reif" => {
+            let (x, y, b) = (a.var(1)?, a.var(2)?, a.var(3)?);
+            match a.n(0)? {
+                0 => m.eq_reif(x, y, b),
+                1 => m.ne_reif(x, y, b),
+                2 => m.lt_reif(x, y, b),
+                3 => m.le_reif(x, y, b),
+                4 => m.gt_reif(x, y, b),
+                _ => m.ge_reif(x, y, b),
+            }
+        }
+        "implies" => m.implies(a.var(0)?, a.var(1)?),
+        "clause" => m.bool_clause(&a.vars(0)?, &a.vars(1)?),
+        "i2f" => m.int2float(a.var(0)?, a.var(1)?),
+        "floor" => m.float2int_floor(a.var(0)?, a.var(1)?),
+        "ceil" => m.float2int_ceil(a.var(0)?, a.var(1)?),
+        "round" => m.float2int_round(a.var(0)?, a.var(1)?),
+        o => return Err(format!("unknown statement {o}")),
+    }
+    Ok(())
+}
+
+fn build(stmts: &[St]) -> Result<(Model, Vec<VarId>), String> {
+    let mut m = new_model();
+    let mut v = vec![];
+    for s in stmts {
+        apply(&mut m, &mut v, s)?;
+    }
+    Ok((m, v))
+}
+
+// ------------------------------------------------------------------------------------------------
+// rendering
+// ------------------------------------------------------------------------------------------------
+fn clean(s: &str) -> String {
+    s.replace('\n', "\\n").replace('\t', " ")
+}
+
+fn show_val(s: &mut String, v: Val) {
+    match v {
+        Val::ValI(i) => { let _ = write!(s, "i{i}"); }
+        Val::ValF(f) => { let _ = write!(s, "f{}", f.to_bits()); }
+    }
+}
+
+fn bits(v: &[f64]) -> String {
+    join(v, ",", |x| x.to_bits().to_string())
+}
+
+/// VarIds are plain indices: handles of a scratch model read every variable of any solution
+static SCRATCH_IDS: std::sync::OnceLock<Vec<VarId>> = std::sync::OnceLock::new();
+
+struct Scratch;
+static SCRATCH: Scratch = Scratch;
+
+impl Scratch {
+    fn with<R>(&self, f: impl FnOnce(&Vec<VarId>) -> R) -> R {
+        f(SCRATCH_IDS.get_or_init(|| {
+            let mut m = Model::default();
+            m.ints(400, 0, 0)
+        }))
+    }
+}
+
+fn show_solution(s: &mut String, sol: &Solution) {
+    s.push('[');
+    SCRATCH.with(|sc| {
+        for (k, id) in sc.iter().enumerate() {
+            let Some(v) = guarded(|| sol[*id]) else { break };
+            if k > 0 { s.push(','); }
+            show_val(s, v);
+        }
+    });
+    s.push(']');
+    let t = &sol.stats;
+    let _ = write!(
+        s,
+        " p={} n={} mem={} vars={}/{}/{}/{}/{} cons={} props={} obj={}/{} lp={}/{}/{}",
+        t.propagation_count, t.node_count, t.peak_memory_mb, t.variables, t.int_variables, t.bool_variables,
+        t.float_variables, t.set_variables, t.constraint_count, t.propagators, t.objective.to_bits(),
+        t.objective_bound.to_bits(), t.lp_solver_used as u8, t.lp_constraint_count, t.lp_variable_count
+    );
+    if let Some(l) = &t.lp_stats {
+        let _ = write!(s, " lpit={}/{}/{}/{}/{}/{}/{}", l.phase1_iterations, l.phase2_iterations, l.peak_memory_mb.to_bits(),
+            l.n_variables, l.n_constraints, l.factorizations, l.phase1_needed as u8);
+    }
+}
+
+/// `None` = a time limit interfered (not comparable, see the property statement)
+fn show_err(e: &SolverError) -> Option<String> {
+    if matches!(e, SolverError::Timeout { .. }) {
+        // the message carries the elapsed wall-clock time: only the verdict is comparable
+        return Some("err Timeout".into());
+    }
+    Some(format!("err {} || {}", clean(&e.to_string()), clean(&format!("{e:?}"))))
+}
+
+const TYPES: &[(&str, fn() -> ConstraintType)] = {
+    use ConstraintType as T;
+    &[
+        ("LessThanOrEquals", || T::LessThanOrEquals), ("LessThan", || T::LessThan), ("GreaterThanOrEquals", || T::GreaterThanOrEquals),
+        ("GreaterThan", || T::GreaterThan), ("Equals", || T::Equals), ("NotEquals", || T::NotEquals),
+        ("AllDifferent", || T::AllDifferent), ("AllEqual", || T::AllEqual), ("Element", || T::Element), ("Sum", || T::Sum),
+        ("Addition", || T::Addition), ("Multiplication", || T::Multiplication), ("Modulo", || T::Modulo), ("Division", || T::Division),
+        ("AbsoluteValue", || T::AbsoluteValue), ("Minimum", || T::Minimum), ("Maximum", || T::Maximum),
+        ("BooleanAnd", || T::BooleanAnd), ("BooleanOr", || T::BooleanOr), ("BooleanNot", || T::BooleanNot), ("BooleanXor", || T::BooleanXor),
+        ("EqualityReified", || T::EqualityReified), ("InequalityReified", || T::InequalityReified), ("LessThanReified", || T::LessThanReified),
+        ("LessEqualReified", || T::LessEqualReified), ("GreaterThanReified", || T::GreaterThanReified), ("GreaterEqualReified", || T::GreaterEqualReified),
+        ("Count", || T::Count), ("Table", || T::Table), ("Between", || T::Between), ("AtLeast", || T::AtLeast), ("AtMost", || T::AtMost),
+        ("Exactly", || T::Exactly), ("IfThenElse", || T::IfThenElse),
+    ]
+};
+
+fn ids(v: &[ConstraintId]) -> String {
+    join(v, ",", |x| x.0.to_string())
+}
+
+fn show_registry(m: &Model, nvars: usize) -> String {
+    let r = m.get_constraint_registry();
+    let mut s = String::new();
+    let all = r.get_all_constraint_ids();
+    let _ = write!(s, "n={} all=[{}]", r.constraint_count(), ids(&all));
+    for (name, mk) in TYPES {
+        let l = r.get_constraints_by_type(&mk());
+        if !l.is_empty() {
+            let _ = write!(s, " {name}=[{}]", ids(&l));
+        }
+    }
+    // `Complex` types carry data: query each distinct one that occurs
+    let mut seen: Vec<ConstraintType> = vec![];
+    for id in &all {
+        if let Some(md) = r.get_constraint(*id) {
+            if matches!(md.constraint_type, ConstraintType::Complex { .. }) && !seen.contains(&md.constraint_type) {
+                seen.push(md.constraint_type.clone());
+                let _ = write!(s, " {:?}=[{}]", md.constraint_type, ids(&r.get_constraints_by_type(&md.constraint_type)));
+            }
+        }
+    }
+    SCRATCH.with(|sc| {
+        for (k, id) in sc.iter().enumerate().take(nvars) {
+            let l = r.get_constraints_for_variable(*id);
+            let an = r.analyze_variable_constraints(*id);
+            let _ = write!(
+                s,
+                " v{k}:[{}] ub[{}] lb[{}] sub[{}] slb[{}] eq[{}] cx{} simple{} eub{} elb{}",
+                ids(&l), bits(&an.upper_bounds), bits(&an.lower_bounds), bits(&an.strict_upper_bounds), bits(&an.strict_lower_bounds),
+                bits(&an.equality_values), an.has_complex_constraints as u8, an.is_simple_pattern() as u8,
+                an.get_effective_upper_bound(1e-6).map_or("-".to_string(), |x| x.to_bits().to_string()),
+                an.get_effective_lower_bound(1e-6).map_or("-".to_string(), |x| x.to_bits().to_string())
+            );
+        }
+    });
+    for id in &all {
+        if let Some(md) = r.get_constraint(*id) {
+            let _ = write!(s, " #{}={}", id.0, clean(&format!("{md:?}")));
+        }
+    }
+    s
+}
+
+fn show_lp(m: &Model) -> String {
+    let sys = m.extract_linear_system();
+    let mut s = String::new();
+    let _ = write!(s, "sysvars=[{}] suitable={}", join(&sys.variables, ",", |v| format!("{v:?}")), sys.is_suitable_for_lp(m.get_vars()) as u8);
+    for c in &sys.constraints {
+        let _ = write!(s, " {{[{}]*[{}] {:?} {}}}", bits(&c.coefficients), join(&c.variables, ",", |v| format!("{v:?}")), c.relation, c.rhs.to_bits());
+    }
+    match guarded(|| sys.to_lp_problem(m.get_vars())) {
+        None => s.push_str(" lp=panic"),
+        Some(p) => {
+            let _ = write!(s, " lp: n={} m={} c=[{}] b=[{}] lo=[{}] hi=[{}] A=[{}]", p.n_vars, p.n_constraints, bits(&p.c), bits(&p.b),
+                bits(&p.lower_bounds), bits(&p.upper_bounds), join(&p.a, ";", |r| bits(r)));
+        }
+    }
+    s
+}
+
+fn show_many(it: impl Iterator<Item = Solution>, cap: usize) -> String {
+    let mut s = String::new();
+    let mut n = 0;
+    for sol in it.take(cap) {
+        if n > 0 { s.push_str(" ; "); }
+        show_solution(&mut s, &sol);
+        n += 1;
+    }
+    format!("seq n={n}{} {s}", if n == cap { " (cap)" } else { "" })
+}
+
+/// build the model and run the call: the complete observable outcome as one line
+/// (`None` = a time limit interfered)
+fn run(stmts: &[St], call: &Call) -> Option<String> {
+    let t0 = std::time::Instant::now();
+    // deterministic work budget instead of a wall clock (hook H6, thread-local): the BUDGET-th
+    // limit check of the search engine finds the timeout exceeded, so a run that is cut is cut at
+    // the same point in every process and stays comparable
+    let budget = BUDGET.load(std::sync::atomic::Ordering::Relaxed);
+    selen::verif_hooks::set_fire_at(if budget == 0 { None } else { Some((budget, 0)) });
+    selen::verif_hooks::take_path_flags();
+    let r = guarded(|| -> Option<String> {
+        let (m, v) = match build(stmts) {
+            Ok(x) => x,
+            Err(e) => return Some(format!("builderr {}", clean(&e))),
+        };
+        let var = |i: usize| v.get(i).copied();
+        let one = |r: Result<Solution, SolverError>| -> Option<String> {
+            match r {
+                Ok(sol) => {
+                    let mut s = String::from("ok ");
+                    show_solution(&mut s, &sol);
+                    Some(s)
+                }
+                Err(e) => show_err(&e),
+            }
+        };
+        match call {
+            Call::Validate => Some(match m.validate() { Ok(()) => "valid".into(), Err(e) => format!("invalid {}", clean(&e)) }),
+            Call::Registry => Some(show_registry(&m, v.len())),
+            Call::Lp => Some(show_lp(&m)),
+            Call::Solve => one(m.solve()),
+            Call::Enum(n) => Some(show_many(m.enumerate(), *n)),
+            Call::Min(x) => one(m.minimize(var(*x)?)),
+            Call::Max(x) => one(m.maximize(var(*x)?)),
+            Call::MinIter(x, n) => Some(show_many(m.minimize_and_iterate(var(*x)?), *n)),
+            Call::MaxIter(x, n) => Some(show_many(m.maximize_and_iterate(var(*x)?), *n)),
+        }
+    });
+    // which path answered (thread-local notes of hook H4): root LP applied / optimisation fast path
+    let (lp, fp) = selen::verif_hooks::take_path_flags();
+    let r = r.map(|x| x.map(|t| if matches!(call, Call::Validate | Call::Registry | Call::Lp) { t } else { format!("{t} path=lp{}/fp{}", lp as u8, fp as u8) }));
+    match r {
+        None => Some("panic".into()),
+        // the iterating entry points swallow a timeout: treat a run that came near the limit as cut
+        Some(x) => if t0.elapsed().as_millis() >= 15000 { None } else { x },
+    }
+}
+
+/// start `run` on a fresh thread (fresh `RandomState` keys, fresh thread-locals)
+fn spawn_run(stmts: &[St], call: &Call) -> std::sync::mpsc::Receiver<Option<String>> {
+    let (s, c) = (stmts.to_vec(), call.clone());
+    let (tx, rx) = std::sync::mpsc::channel();
+    let _ = std::thread::Builder::new().stack_size(64 << 20).spawn(move || {
+        let _ = tx.send(run(&s, &c));
+    });
+    rx
+}
+
+/// the two runs, concurrently on two fresh threads, under a wall-clock watchdog: some float
+/// models make the (uninterruptible) root propagation converge in 1e-6 steps for a minute; such a
+/// run is abandoned (`None` = a time limit interfered) and its thread left to die with the process
+fn run_twice(stmts: &[St], call: &Call) -> (Option<String>, Option<String>) {
+    let wall = std::time::Duration::from_millis(WALL_MS.load(std::sync::atomic::Ordering::Relaxed) as u64);
+    let t0 = std::time::Instant::now();
+    let (a, b) = (spawn_run(stmts, call), spawn_run(stmts, call));
+    let ra = a.recv_timeout(wall).ok().flatten();
+    let rb = b.recv_timeout(wall.saturating_sub(t0.elapsed())).ok().flatten();
+    (ra, rb)
+}
+
+fn first_diff(a: &str, b: &str) -> String {
+    let p = a.bytes().zip(b.bytes()).take_while(|(x, y)| x == y).count();
+    let lo = p.saturating_sub(30);
+    let cut = |s: &str| -> String { s.chars().skip(lo).take(90).collect() };
+    format!("at byte {p}: first run `…{}` vs second run `…{}`", cut(a), cut(b))
+}
+
+/// returns true when the watchdog abandoned the run
+fn do_call(out: &mut Out, stmts: &[St], call: &Call) -> bool {
+    let t0 = std::time::Instant::now();
+    let (r1, r2) = run_twice(stmts, call);
+    out.stat(call.stat());
+    if std::env::var("DET_TIMES").is_ok() {
+        eprintln!("{:>6} ms  {} | {}", t0.elapsed().as_millis(), call.show(), show_model(stmts));
+    }
+    let op = format!("#det {} | {}", call.show(), show_model(stmts));
+    // the line must be a complete description: it has to parse back to the same model and call
+    let back = op.strip_prefix("#det ").and_then(|t| t.split_once(" | ")).and_then(|(c, m)| Some((Call::parse(c)?, parse_model(m)?)));
+    let roundtrip = back.is_some_and(|(c, m)| c == *call && m == stmts);
+    match (r1, r2) {
+        (Some(a), Some(b)) => {
+            let head = match call {
+                Call::Registry => "registry",
+                Call::Lp => "lp",
+                _ => a.split_whitespace().next().unwrap_or(""),
+            };
+            out.stat(&format!("outcome.{head}"));
+            if a.starts_with("err ") {
+                let name = a[4..].split(|c: char| !c.is_alphanumeric()).next().unwrap_or("");
+                out.stat(&format!("error.{}", a.split("||").nth(1).and_then(|d| d.trim().split(|c: char| !c.is_alphanumeric()).next()).unwrap_or(name)));
+            }
+            let line = out.emit(op, a.clone());
+            if a != b {
+                out.fail(line, "C16", "-", first_diff(&a, &b));
+            }
+            if !roundtrip {
+                out.fail(line, "C16", "-", "harness: the protocol line does not parse back to the model that was run");
+            }
+        }
+        _ => {
+            out.stat("outcome.time-limit");
+            out.emit(op, "time-limit");
+            return true;
+        }
+    }
+    false
+}
+
+// ------------------------------------------------------------------------------------------------
+// generators
+// ------------------------------------------------------------------------------------------------
+#[derive(Clone, Copy, PartialEq, Debug)]
+enum K {
+    I,
+    B,
+    F,
+}
+
+struct G<'a> {
+    r: &'a mut Rng,
+    s: Vec<St>,
+    k: Vec<K>,
+    /// rough integer hull of every variable (keeps products small)
+    h: Vec<(i64, i64)>,
+    /// a witness assignment: most generated constraints are chosen to hold under it, so that most
+    /// models are satisfiable (in the documented semantics; the code's known defects may disagree)
+    w: Vec<f64>,
+}
+
+fn n(x: impl TryInto<i64>) -> A {
+    A::N(x.try_into().ok().unwrap())
+}
+
+fn l(v: &[usize]) -> A {
+    A::L(v.iter().map(|x| *x as i64).collect())
+}
+
+impl<'a> G<'a> {
+    fn new(r: &'a mut Rng) -> Self {
+        G { r, s: vec![], k: vec![], h: vec![], w: vec![] }
+    }
+    fn decl(&mut self, s: St, k: K, h: (i64, i64)) -> usize {
+        let w = self.witness_for(&s);
+        self.s.push(s);
+        self.k.push(k);
+        self.h.push(h);
+        self.w.push(w);
+        self.k.len() - 1
+    }
+    fn witness_for(&mut self, s: &St) -> f64 {
+        let num = |i: usize| -> f64 { match s.a.get(i) { Some(A::N(x)) => *x as f64, Some(A::F(x)) => *x, _ => 0.0 } };
+        let wv = |g: &Self, i: usize| -> f64 { g.w.get(num(i) as usize).copied().unwrap_or(0.0) };
+        let wl = |g: &Self, i: usize| -> Vec<f64> {
+            match s.a.get(i) { Some(A::L(l)) => l.iter().map(|x| g.w.get(*x as usize).copied().unwrap_or(0.0)).collect(), _ => vec![] }
+        };
+        match s.op.as_str() {
+            "int" => self.r.range(num(0) as i64, num(1) as i64) as f64,
+            "set" => match s.a.first() { Some(A::L(l)) if !l.is_empty() => l[self.r.below(l.len() as u64) as usize] as f64, _ => 0.0 },
+            "bool" => self.r.below(2) as f64,
+            "float" => {
+                let steps = ((num(1) - num(0)) * 2.0).floor() as i64;
+                num(0) + self.r.range(0, steps.max(0)) as f64 / 2.0
+            }
+            "add" => wv(self, 0) + wv(self, 1),
+            "sub" => wv(self, 0) - wv(self, 1),
+            "mul" => wv(self, 0) * wv(self, 1),
+            "addk" | "faddk" => wv(self, 0) + num(1),
+            "mulk" | "fmulk" => wv(self, 0) * num(1),
+            "abs" => wv(self, 0).abs(),
+            "min" => wl(self, 0).into_iter().fold(f64::INFINITY, f64::min),
+            "max" => wl(self, 0).into_iter().fold(f64::NEG_INFINITY, f64::max),
+            "sum" => wl(self, 0).into_iter().sum(),
+            "band" => wl(self, 0).into_iter().all(|x| x != 0.0) as u8 as f64,
+            "bor" => wl(self, 0).into_iter().any(|x| x != 0.0) as u8 as f64,
+            "bnot" => (wv(self, 0) == 0.0) as u8 as f64,
+            "bxor" => ((wv(self, 0) != 0.0) != (wv(self, 1) != 0.0)) as u8 as f64,
+            _ => 0.0,
+        }
+    }
+    fn eval(&self, e: &E) -> f64 {
+        match e {
+            E::V(i) => self.w.get(*i).copied().unwrap_or(0.0),
+            E::I(c) => *c as f64,
+            E::F(c) => *c,
+            E::B(op, a, b) => {
+                let (x, y) = (self.eval(a), self.eval(b));
+                match op { b'+' => x + y, b'-' => x - y, b'*' => x * y, b'/' => x / y, _ => x % y }
+            }
+        }
+    }
+    /// a comparison operator that holds between the two witness values (6 times out of 7)
+    fn op_for(&mut self, x: f64, y: f64) -> i64 {
+        if self.r.chance(1, 7) { return self.r.below(6) as i64; }
+        let ok: Vec<i64> = (0..6i64).filter(|o| match o { 0 => x == y, 1 => x != y, 2 => x < y, 3 => x <= y, 4 => x > y, _ => x >= y }).collect();
+        ok[self.r.below(ok.len() as u64) as usize]
+    }
+    fn int(&mut self, lo: i32, hi: i32) -> usize {
+        self.decl(st("int", vec![n(lo), n(hi)]), K::I, (lo as i64, hi as i64))
+    }
+    fn float(&mut self, lo: f64, hi: f64) -> usize {
+        self.decl(st("float", vec![A::F(lo), A::F(hi)]), K::F, (lo.floor() as i64, hi.ceil() as i64))
+    }
+    fn boolv(&mut self) -> usize {
+        self.decl(st("bool", vec![]), K::B, (0, 1))
+    }
+    fn of(&self, k: K) -> Vec<usize> {
+        (0..self.k.len()).filter(|i| self.k[*i] == k).collect()
+    }
+    fn ints(&self) -> Vec<usize> {
+        (0..self.k.len()).filter(|i| self.k[*i] != K::F && self.h[*i].1 - self.h[*i].0 <= 64).collect()
+    }
+    fn pick(&mut self, v: &[usize]) -> usize {
+        v[self.r.below(v.len() as u64) as usize]
+    }
+    fn some(&mut self, v: &[usize], lo: usize, hi: usize) -> Vec<usize> {
+        // between lo and hi distinct elements of v, in random order
+        let k = self.r.range(lo as i64, hi.min(v.len().max(lo)) as i64) as usize;
+        let mut pool = v.to_vec();
+        let mut o = vec![];
+        for _ in 0..k {
+            if pool.is_empty() { break; }
+            let i = self.r.below(pool.len() as u64) as usize;
+            o.push(pool.remove(i));
+        }
+        o
+    }
+    fn small_int_var(&mut self) -> usize {
+        let lo = self.r.range(-3, 3) as i32;
+        match self.r.below(10) {
+            0 => self.int(lo, lo),
+            1 | 2 => {
+                let mut vals: Vec<i32> = (0..self.r.range(1, 4)).map(|_| self.r.range(-4, 6) as i32).collect();
+                if self.r.chance(1, 4) { vals.push(vals[0]); }
+                let h = (*vals.iter().min().unwrap() as i64, *vals.iter().max().unwrap() as i64);
+                self.decl(st("set", vec![A::L(vals.iter().map(|x| *x as i64).collect())]), K::I, h)
+            }
+            3 => self.boolv(),
+            _ => { let w = self.r.range(1, 4) as i32; self.int(lo, lo + w) }
+        }
+    }
+    fn expr(&mut self, pool: &[usize], depth: u32, float: bool) -> E {
+        if depth == 0 || self.r.chance(2, 5) {
+            if self.r.chance(3, 4) && !pool.is_empty() {
+                E::V(self.pick(pool))
+            } else if float && self.r.chance(1, 2) {
+                E::F(self.r.range(-8, 8) as f64 / 2.0)
+            } else {
+                E::I(self.r.range(-3, 4) as i32)
+            }
+        } else {
+            let op = *self.r.pick(if float { b"++-*" } else { b"++--*" });
+            let a = self.expr(pool, depth - 1, float);
+            let b = if op == b'*' { if float { E::F(self.r.range(-4, 4) as f64 / 2.0) } else { E::I(self.r.range(-2, 3) as i32) } } else { self.expr(pool, depth - 1, float) };
+            E::B(op, Box::new(a), Box::new(b))
+        }
+    }
+    fn cmp(&mut self, pool: &[usize], float: bool) -> Vec<A> {
+        let d = self.r.below(3) as u32;
+        let lhs = self.expr(pool, d, float);
+        let lv = self.eval(&lhs);
+        let near = lv.round() as i64 + self.r.range(-2, 2);
+        let rhs = if self.r.chance(1, 2) { self.expr(pool, 1, float) } else if float { E::F(near as f64 + self.r.below(2) as f64 / 2.0) } else { E::I(near.clamp(-100000, 100000) as i32) };
+        let op = self.op_for(lv, self.eval(&rhs));
+        vec![A::N(op), A::X(lhs), A::X(rhs)]
+    }
+    fn fluent(&mut self, pool: &[usize], float: bool) {
+        let a = self.cmp(pool, float);
+        match self.r.below(8) {
+            0 => { let mut b = self.cmp(pool, float); let mut x = a; x.append(&mut b); self.s.push(st("and", x)); }
+            1 => { let mut b = self.cmp(pool, float); let mut x = a; x.append(&mut b); self.s.push(st("or", x)); }
+            2 => self.s.push(st("not", a)),
+            _ => self.s.push(st("cmp", a)),
+        }
+    }
+    fn lin(&mut self, pool: &[usize]) {
+        let xs = self.some(pool, 1, 3);
+        let cs: Vec<i64> = xs.iter().map(|_| self.r.range(-3, 3)).collect();
+        let v: i64 = xs.iter().zip(&cs).map(|(x, c)| self.w[*x] as i64 * c).sum();
+        let kind = self.r.below(3) as i64;
+        // eq: the witness value; le: at or above it; ne: off it (6 times out of 7)
+        let k = if self.r.chance(1, 7) { self.r.range(-6, 9) } else { match kind { 0 => v, 1 => v + self.r.range(0, 2), _ => v + self.r.range(1, 2) } };
+        let bools = self.of(K::B);
+        if !bools.is_empty() && self.r.chance(1, 4) {
+            let b = self.pick(&bools);
+            self.s.push(st("linr", vec![n(kind), A::L(cs), l(&xs), n(k), n(b)]));
+        } else {
+            self.s.push(st("lin", vec![n(kind), A::L(cs), l(&xs), n(k)]));
+        }
+    }
+    fn fun(&mut self, pool: &[usize]) -> usize {
+        let x = self.pick(pool);
+        let y = self.pick(pool);
+        let (hx, hy) = (self.h[x], self.h[y]);
+        let c = self.r.range(-3, 3);
+        match self.r.below(11) {
+            0 => self.decl(st("add", vec![n(x), n(y)]), K::I, (hx.0 + hy.0, hx.1 + hy.1)),
+            1 => self.decl(st("sub", vec![n(x), n(y)]), K::I, (hx.0 - hy.1, hx.1 - hy.0)),
+            2 => {
+                let c = [hx.0 * hy.0, hx.0 * hy.1, hx.1 * hy.0, hx.1 * hy.1];
+                self.decl(st("mul", vec![n(x), n(y)]), K::I, (*c.iter().min().unwrap(), *c.iter().max().unwrap()))
+            }
+            3 => self.decl(st("addk", vec![n(x), n(c)]), K::I, (hx.0 + c, hx.1 + c)),
+            4 => self.decl(st("mulk", vec![n(x), n(c)]), K::I, ((hx.0 * c).min(hx.1 * c), (hx.0 * c).max(hx.1 * c))),
+            5 => self.decl(st("abs", vec![n(x)]), K::I, (0, hx.0.abs().max(hx.1.abs()))),
+            6 | 7 => {
+                let xs = self.some(pool, 1, 3);
+                let lo = xs.iter().map(|i| self.h[*i].0).min().unwrap();
+                let hi = xs.iter().map(|i| self.h[*i].1).max().unwrap();
+                let name = if self.r.chance(1, 2) { "min" } else { "max" };
+                self.decl(st(name, vec![l(&xs)]), K::I, (lo, hi))
+            }
+            8 => {
+                let xs = self.some(pool, 1, 3);
+                let lo = xs.iter().map(|i| self.h[*i].0).sum();
+                let hi = xs.iter().map(|i| self.h[*i].1).sum();
+                self.decl(st("sum", vec![l(&xs)]), K::I, (lo, hi))
+            }
+            9 => self.decl(st("div", vec![n(x), n(y)]), K::F, (-100, 100)),
+            _ => self.decl(st("mod", vec![n(x), n(y)]), K::I, (-hy.0.abs().max(hy.1.abs()), hy.0.abs().max(hy.1.abs()))),
+        }
+    }
+    fn global(&mut self, pool: &[usize]) {
+        match self.r.below(9) {
+            0 | 1 | 2 => { let xs = self.some(pool, 2, 4); self.s.push(st("alldiff", vec![l(&xs)])); }
+            3 => { let xs = self.some(pool, 2, 3); self.s.push(st("alleq", vec![l(&xs)])); }
+            4 => {
+                let arr = self.some(pool, 1, 4);
+                let (i, v) = (self.pick(pool), self.pick(pool));
+                self.s.push(st("elem", vec![l(&arr), n(i), n(v)]));
+            }
+            5 => {
+                let xs = self.some(pool, 1, 4);
+                let c = self.pick(pool);
+                self.s.push(st("count", vec![l(&xs), n(self.r.range(-2, 3)), n(c)]));
+            }
+            6 => {
+                let xs = self.some(pool, 1, 3);
+                let rows: Vec<Vec<i64>> = (0..self.r.range(0, 4)).map(|_| xs.iter().map(|_| self.r.range(-3, 4)).collect()).collect();
+                self.s.push(st("table", vec![l(&xs), A::T(rows)]));
+            }
+            _ => {
+                let xs = self.some(pool, 1, 4);
+                self.s.push(st("card", vec![n(self.r.below(3)), l(&xs), n(self.r.range(-2, 3)), n(self.r.range(0, 3))]));
+            }
+        }
+    }
+    fn boolean(&mut self) {
+        let mut bs = self.of(K::B);
+        while bs.len() < 2 {
+            bs.push(self.boolv());
+        }
+        match self.r.below(7) {
+            0 => { let xs = self.some(&bs, 1, 3); self.decl(st("band", vec![l(&xs)]), K::B, (0, 1)); }
+            1 => { let xs = self.some(&bs, 1, 3); self.decl(st("bor", vec![l(&xs)]), K::B, (0, 1)); }
+            2 => { let x = self.pick(&bs); self.decl(st("bnot", vec![n(x)]), K::B, (0, 1)); }
+            3 => { let (x, y) = (self.pick(&bs), self.pick(&bs)); self.decl(st("bxor", vec![n(x), n(y)]), K::B, (0, 1)); }
+            4 => { let (x, y) = (self.pick(&bs), self.pick(&bs)); self.s.push(st("implies", vec![n(x), n(y)])); }
+            5 => { let (p, q) = (self.some(&bs, 0, 2), self.some(&bs, 0, 2)); self.s.push(st("clause", vec![l(&p), l(&q)])); }
+            _ => {
+                let xs = self.some(&bs, 1, 3);
+                let cs: Vec<i64> = xs.iter().map(|_| self.r.range(-2, 3)).collect();
+                self.s.push(st("blin", vec![n(self.r.below(3)), A::L(cs), l(&xs), n(self.r.range(-2, 4))]));
+            }
+        }
+    }
+    fn reif(&mut self, pool: &[usize]) {
+        let mut bs = self.of(K::B);
+        if bs.is_empty() {
+            bs.push(self.boolv());
+        }
+        let (x, y, b) = (self.pick(pool), self.pick(pool), self.pick(&bs));
+        self.s.push(st("reif", vec![n(self.r.below(6)), n(x), n(y), n(b)]));
+    }
+    fn opt_calls(&mut self, calls: &mut Vec<Call>, pool: &[usize]) {
+        if pool.is_empty() { return; }
+        let v = self.pick(pool);
+        calls.push(if self.r.chance(1, 2) { Call::Min(v) } else { Call::Max(v) });
+        if self.r.chance(1, 3) {
+            let v = self.pick(pool);
+            calls.push(if self.r.chance(1, 2) { Call::MinIter(v, 30) } else { Call::MaxIter(v, 30) });
+        }
+    }
+}
+
+/// random small integer / boolean model with fluent, linear, global, result-function constraints
+fn gen_csp(r: &mut Rng) -> (Vec<St>, Vec<Call>) {
+    let mut g = G::new(r);
+    for _ in 0..g.r.range(2, 5) {
+        g.small_int_var();
+    }
+    for _ in 0..g.r.range(1, 5) {
+        let pool = g.ints();
+        match g.r.below(12) {
+            0..=3 => g.fluent(&pool, false),
+            4 | 5 => g.lin(&pool),
+            6 | 7 => g.global(&pool),
+            8 | 9 => {
+                let f = g.fun(&pool);
+                if g.r.chance(1, 2) {
+                    let rhs = g.w[f].round() as i64 + g.r.range(-1, 1);
+                    let op = g.op_for(g.w[f], rhs as f64);
+                    g.s.push(st("cmp", vec![A::N(op), A::X(E::V(f)), A::X(E::I(rhs.clamp(-100000, 100000) as i32))]));
+                }
+            }
+            10 => g.boolean(),
+            _ => g.reif(&pool),
+        }
+    }
+    let mut calls = vec![Call::Validate, Call::Registry, Call::Solve, Call::Enum(60)];
+    let pool = g.ints();
+    g.opt_calls(&mut calls, &pool);
+    (g.s, calls)
+}
+
+/// several AllDifferent constraints that fail validation (two variables fixed to the same value /
+/// fewer values than variables / a duplicated variable), other invalid constraints around them:
+/// every run must report the SAME first error
+fn gen_invalid(r: &mut Rng) -> (Vec<St>, Vec<Call>) {
+    let mut g = G::new(r);
+    let nv = g.r.range(4, 7);
+    for _ in 0..nv {
+        let lo = g.r.range(0, 2) as i32;
+        if g.r.chance(1, 2) { g.int(lo, lo); } else { let w = g.r.range(0, 2) as i32; g.int(lo, lo + w); }
+    }
+    let all: Vec<usize> = (0..nv as usize).collect();
+    let mut bad = 0;
+    let total = g.r.range(2, 5);
+    for _ in 0..total {
+        match g.r.below(6) {
+            0 | 1 => {
+                // two variables fixed to the same value
+                let v = g.r.range(0, 2) as i32;
+                let (a, b) = (g.int(v, v), g.int(v, v));
+                let mut xs = g.some(&all, 0, 2);
+                xs.insert(g.r.below(xs.len() as u64 + 1) as usize, a);
+                xs.insert(g.r.below(xs.len() as u64 + 1) as usize, b);
+                g.s.push(st("alldiff", vec![l(&xs)]));
+                bad += 1;
+            }
+            2 | 3 => {
+                // pigeonhole: k+1 variables over k values
+                let k = g.r.range(1, 3) as i32;
+                let xs: Vec<usize> = (0..=k).map(|_| g.int(0, k - 1)).collect();
+                g.s.push(st("alldiff", vec![l(&xs)]));
+                bad += 1;
+            }
+            4 => {
+                // duplicated variable (a parameter error, reported after the conflict errors)
+                let mut xs = g.some(&all, 2, 3);
+                xs.push(xs[0]);
+                g.s.push(st("alldiff", vec![l(&xs)]));
+                bad += 1;
+            }
+            _ => {
+                // a valid one in between, or a division whose divisor may be zero
+                if g.r.chance(1, 2) {
+                    let xs: Vec<usize> = (0..2).map(|_| g.int(0, 5)).collect();
+                    g.s.push(st("alldiff", vec![l(&xs)]));
+                } else {
+                    let (x, y) = (g.pick(&all), g.pick(&all));
+                    let nm = if g.r.chance(1, 2) { "div" } else { "mod" };
+                    g.decl(st(nm, vec![n(x), n(y)]), K::I, (-9, 9));
+                }
+            }
+        }
+    }
+    if bad < 2 {
+        let xs: Vec<usize> = (0..3).map(|_| g.int(0, 1)).collect();
+        g.s.push(st("alldiff", vec![l(&xs)]));
+        let (a, b) = (g.int(1, 1), g.int(1, 1));
+        g.s.push(st("alldiff", vec![l(&[a, b])]));
+    }
+    if g.r.chance(1, 3) {
+        g.fluent(&all, false);
+    }
+    let v = g.pick(&all);
+    (g.s, vec![Call::Validate, Call::Registry, Call::Solve, Call::Enum(5), Call::Min(v), Call::MaxIter(v, 5)])
+}
+
+/// float / mixed linear models with several `m.add(var,var)` and an objective, so that the root
+/// LP step runs (extract_linear_system, to_lp_problem, apply_lp_solution)
+fn gen_lp(r: &mut Rng) -> (Vec<St>, Vec<Call>) {
+    let mut g = G::new(r);
+    let nf = g.r.range(2, 4);
+    for _ in 0..nf {
+        if g.r.chance(1, 5) {
+            let lo = g.r.range(0, 3) as i32;
+            let w = g.r.range(2, 8) as i32;
+            g.int(lo, lo + w);
+        } else {
+            let lo = g.r.range(-4, 4) as f64 / 2.0;
+            let w = g.r.range(1, 20) as f64 / 2.0;
+            g.float(lo, lo + w);
+        }
+    }
+    let base: Vec<usize> = (0..g.k.len()).collect();
+    let mut sums = vec![];
+    for _ in 0..g.r.range(2, 4) {
+        let pool: Vec<usize> = (0..g.k.len()).collect();
+        let (x, y) = (g.pick(&pool), g.pick(&pool));
+        let h = (g.h[x].0 + g.h[y].0, g.h[x].1 + g.h[y].1);
+        let k = if g.k[x] == K::F || g.k[y] == K::F { K::F } else { K::I };
+        sums.push(g.decl(st("add", vec![n(x), n(y)]), k, h));
+    }
+    for _ in 0..g.r.range(1, 4) {
+        let pool: Vec<usize> = (0..g.k.len()).collect();
+        match g.r.below(6) {
+            0 | 1 => {
+                let xs = g.some(&pool, 1, 3);
+                let cs: Vec<f64> = xs.iter().map(|_| g.r.range(-4, 6) as f64 / 2.0).collect();
+                let v: f64 = xs.iter().zip(&cs).map(|(x, c)| g.w[*x] * c).sum();
+                let kind = g.r.below(2);
+                let k = if g.r.chance(1, 7) { g.r.range(0, 30) as f64 / 2.0 } else if kind == 0 { v } else { v + g.r.range(0, 4) as f64 / 2.0 };
+                g.s.push(st("flin", vec![n(kind), A::G(cs), l(&xs), A::F(k)]));
+            }
+            2 | 3 => {
+                // var <= var: LessThanOrEquals propagator, scanned by extract_linear_system
+                let (x, y) = (g.pick(&pool), g.pick(&pool));
+                let (x, y) = if g.w[x] <= g.w[y] || g.r.chance(1, 7) { (x, y) } else { (y, x) };
+                g.s.push(st("cmp", vec![A::N(3), A::X(E::V(x)), A::X(E::V(y))]));
+            }
+            4 => g.fluent(&pool, true),
+            _ => {
+                let x = g.pick(&pool);
+                let c = g.w[x] + g.r.range(-2, 2) as f64 / 2.0;
+                let op = g.op_for(g.w[x], c);
+                g.s.push(st("cmp", vec![A::N(op), A::X(E::V(x)), A::X(E::F(c))]));
+            }
+        }
+    }
+    let mut calls = vec![Call::Lp, Call::Validate, Call::Registry, Call::Solve];
+    let o = g.pick(&sums);
+    calls.push(if g.r.chance(1, 2) { Call::Max(o) } else { Call::Min(o) });
+    let b = if g.r.chance(1, 2) { g.pick(&base) } else { g.pick(&sums) };
+    calls.push(if g.r.chance(1, 2) { Call::Max(b) } else { Call::Min(b) });
+    if g.r.chance(1, 4) {
+        calls.push(Call::MaxIter(o, 10));
+    }
+    (g.s, calls)
+}
+
+/// unbounded declarations (bound inference at creation and in `infer_unbounded_from_asts`,
+/// including the deferred `x == c` special case)
+fn gen_unbounded(r: &mut Rng) -> (Vec<St>, Vec<Call>) {
+    let mut g = G::new(r);
+    let ctx = g.r.chance(9, 10);
+    if ctx {
+        let lo = g.r.range(-2, 2) as i32;
+        let w = g.r.range(1, 3) as i32;
+        g.int(lo, lo + w);
+        if g.r.chance(1, 2) {
+            let w = g.r.range(1, 4) as f64;
+            g.float(0.0, w);
+        }
+    }
+    let mut ub = vec![];
+    // at most one unbounded integer: a second one would take the first one's inferred range as
+    // its context and grow to the 1M-value cap
+    for j in 0..g.r.range(1, 2) {
+        let c = g.r.range(-3, 3);
+        let (s, k) = match if j == 0 { g.r.below(5) } else { 4 } {
+            0 | 1 => (st("uint", vec![]), K::I),
+            2 => (st("intlo", vec![n(c)]), K::I),
+            3 => (st("inthi", vec![n(c)]), K::I),
+            _ => (st("ufloat", vec![]), K::F),
+        };
+        ub.push(g.decl(s, k, (-100000, 100000)));
+    }
+    for &u in &ub.clone() {
+        let f = g.k[u] == K::F;
+        let c = |_g: &mut G, x: i64| if f { E::F(x as f64 / 2.0) } else { E::I(x as i32) };
+        match g.r.below(5) {
+            0 => { let e = c(&mut g, 47); g.s.push(st("cmp", vec![A::N(0), A::X(E::V(u)), A::X(e)])); }
+            1 => { let x = g.r.range(-5, 5);
+                let e = c(&mut g, x); g.s.push(st("cmp", vec![A::N(0), A::X(e), A::X(E::V(u))])); }
+            2 => {
+                let (a, b) = (g.r.range(-6, 0), g.r.range(0, 6));
+                let (ea, eb) = (c(&mut g, a), c(&mut g, b));
+                g.s.push(st("cmp", vec![A::N(5), A::X(E::V(u)), A::X(ea)]));
+                g.s.push(st("cmp", vec![A::N(3), A::X(E::V(u)), A::X(eb)]));
+            }
+            3 if !f => {
+                let o = if ctx { 0 } else { u };
+                g.s.push(st("lin", vec![n(g.r.below(2)), A::L(vec![1, g.r.range(1, 3)]), l(&[u, o]), n(g.r.range(-4, 8))]));
+            }
+            _ => { let x = g.r.range(-4, 4);
+                let e = c(&mut g, x); g.s.push(st("cmp", vec![A::N(*g.r.pick(&[4i64, 5])), A::X(E::V(u)), A::X(e)])); }
+        }
+    }
+    let u = ub[0];
+    let mut calls = vec![Call::Validate, Call::Registry, Call::Solve, Call::Enum(4)];
+    if ctx || g.k[u] == K::F {
+        // (without a context the fallback domain has 200 001 values: too slow to optimise over)
+        calls.push(if g.r.chance(1, 2) { Call::Min(u) } else { Call::Max(u) });
+    }
+    (g.s, calls)
+}
+
+/// AllDifferent over domains wider than 128 values (the SparseSet half of `HybridGAC`), mixed
+/// with small ones (cross propagation between the two halves)
+fn gen_bigdom(r: &mut Rng) -> (Vec<St>, Vec<Call>) {
+    let mut g = G::new(r);
+    let nb = g.r.range(1, 3);
+    for _ in 0..nb {
+        let lo = g.r.range(-5, 5) as i32;
+        let w = g.r.range(128, 220) as i32;
+        g.int(lo, lo + w);
+    }
+    for _ in 0..g.r.range(1, 3) {
+        let lo = g.r.range(-5, 5) as i32;
+        let w = g.r.range(0, 3) as i32;
+        g.int(lo, lo + w);
+    }
+    let all: Vec<usize> = (0..g.k.len()).collect();
+    let xs = g.some(&all, 2, all.len());
+    g.s.push(st("alldiff", vec![l(&xs)]));
+    if g.r.chance(1, 2) {
+        let ys = g.some(&all, 2, all.len());
+        g.s.push(st("alldiff", vec![l(&ys)]));
+    }
+    for _ in 0..g.r.range(0, 2) {
+        g.fluent(&all, false);
+    }
+    let v = g.pick(&all);
+    let opt = if g.r.chance(1, 2) { Call::Min(v) } else { Call::Max(v) };
+    (g.s, vec![Call::Validate, Call::Solve, Call::Enum(25), opt])
+}
+
+/// integers, floats, conversions, reified and boolean constraints together
+fn gen_mixed(r: &mut Rng) -> (Vec<St>, Vec<Call>) {
+    let mut g = G::new(r);
+    for _ in 0..g.r.range(1, 3) {
+        g.small_int_var();
+    }
+    let mut fl = vec![];
+    for _ in 0..g.r.range(1, 2) {
+        let lo = g.r.range(-4, 4) as f64 / 2.0;
+        let w = g.r.range(1, 8) as f64 / 2.0;
+        fl.push(g.float(lo, lo + w));
+    }
+    for _ in 0..g.r.range(1, 4) {
+        let ints = g.ints();
+        let all: Vec<usize> = (0..g.k.len()).collect();
+        match g.r.below(8) {
+            0 => { let (i, f) = (g.pick(&ints), g.pick(&fl)); g.s.push(st("i2f", vec![n(i), n(f)])); }
+            1 => { let (i, f) = (g.pick(&ints), g.pick(&fl)); g.s.push(st(*g.r.pick(&["floor", "ceil", "round"]), vec![n(f), n(i)])); }
+            2 => g.fluent(&all, true),
+            3 => g.fluent(&fl.clone(), true),
+            4 => g.reif(&all),
+            5 => g.boolean(),
+            6 => {
+                let x = g.pick(&fl);
+                let c = g.r.range(-4, 4) as f64 / 2.0;
+                let nm = if g.r.chance(1, 2) { "faddk" } else { "fmulk" };
+                fl.push(g.decl(st(nm, vec![n(x), A::F(c)]), K::F, (-50, 50)));
+            }
+            _ => g.lin(&ints),
+        }
+    }
+    let all: Vec<usize> = (0..g.k.len()).collect();
+    let mut calls = vec![Call::Validate, Call::Registry, Call::Lp, Call::Solve, Call::Enum(12)];
+    g.opt_calls(&mut calls, &all);
+    (g.s, calls)
+}
+
+fn run_case(out: &mut Out, r: &mut Rng, i: u64) {
+    let (fam, (stmts, calls)) = match r.below(20) {
+        0..=6 => ("csp", gen_csp(r)),
+        7 | 8 => ("alldiff-invalid", gen_invalid(r)),
+        9..=12 => ("lp", gen_lp(r)),
+        13 | 14 => ("unbounded", gen_unbounded(r)),
+        15 => ("bigdom", gen_bigdom(r)),
+        _ => ("mixed", gen_mixed(r)),
+    };
+    out.case(&format!("det{i}-{fam}"));
+    out.stat(&format!("family.{fam}"));
+    for s in &stmts {
+        out.stat(&format!("stmt.{}", s.op));
+    }
+    let mut cut = false;
+    for c in &calls {
+        if cut && !matches!(c, Call::Validate | Call::Registry | Call::Lp) {
+            // the watchdog already abandoned a run of this model (its threads are still spinning):
+            // do not start more of them
+            out.stat("outcome.time-limit");
+            out.emit(format!("#det {} | {}", c.show(), show_model(&stmts)), "time-limit");
+            continue;
+        }
+        cut |= do_call(out, &stmts, c);
+    }
+}
+
+// ------------------------------------------------------------------------------------------------
+// probes of the hash-ordered public helper structs (not reached by solve)
+// ------------------------------------------------------------------------------------------------
+fn show_doms(d: &[Vec<i32>]) -> String {
+    join(d, "|", |x| join(x, ",", |v| v.to_string()))
+}
+
+fn parse_doms(t: &str) -> Option<Vec<Vec<i32>>> {
+    t.split('|').map(|d| if d.is_empty() { Some(vec![]) } else { d.split(',').map(|x| x.parse().ok()).collect() }).collect()
+}
+
+/// one run of one probe on fresh structures
+fn probe_once(kind: &str, doms: &[Vec<i32>]) -> String {
+    use selen::constraints::gac_bitset::BitSetGAC;
+    use selen::constraints::gac_hybrid::{HybridGAC, Variable};
+    use selen::constraints::gac_sparseset::SparseSetGAC;
+    let vars: Vec<Variable> = (0..doms.len()).map(Variable).collect();
+    let sorted = |mut v: Vec<i32>| { v.sort(); v };
+    guarded(|| match kind {
+        "ssgac" => {
+            let mut g = SparseSetGAC::new();
+            for (i, d) in doms.iter().enumerate() {
+                g.add_variable_with_values(Variable(i), d.clone());
+            }
+            let (ch, ok) = g.propagate_alldiff(&vars);
+            let res: Vec<Vec<i32>> = vars.iter().map(|v| sorted(g.get_domain_values(*v))).collect();
+            format!("changed={} consistent={} doms={}", ch as u8, ok as u8, show_doms(&res))
+        }
+        "bsgac" => {
+            let mut g = BitSetGAC::new();
+            for (i, d) in doms.iter().enumerate() {
+                g.add_variable_with_values(Variable(i), d.clone());
+            }
+            let (ch, ok) = g.propagate_alldiff(&vars);
+            let res: Vec<Vec<i32>> = vars.iter().map(|v| sorted(g.get_domain_values(*v))).collect();
+            format!("changed={} consistent={} doms={}", ch as u8, ok as u8, show_doms(&res))
+        }
+        "hygac" => {
+            let mut g = HybridGAC::new();
+            for (i, d) in doms.iter().enumerate() {
+                if g.add_variable_with_values(Variable(i), d.clone()).is_err() {
+                    return "add-error".to_string();
+                }
+            }
+            let (ch, ok) = g.propagate_alldiff(&vars);
+            let res: Vec<Vec<i32>> = vars.iter().map(|v| sorted(g.get_domain_values(*v))).collect();
+            format!("changed={} consistent={} doms={}", ch as u8, ok as u8, show_doms(&res))
+        }
+        "precprops" => {
+            // `create_precision_propagators`: one propagator per variable of the `<`/`<=`/`>`/`>=`
+            // constraints of a registry, returned in the iteration order of a HashSet
+            let mut m = Model::default();
+            let xs: Vec<VarId> = doms.iter().map(|_| m.float(0.0, 1.0)).collect();
+            let mut reg = ConstraintRegistry::new();
+            for w in xs.windows(2) {
+                reg.register_constraint(ConstraintType::LessThanOrEquals, vec![w[0], w[1]], ConstraintData::None);
+            }
+            let ps = selen::optimization::precision_propagator::create_precision_propagators(&reg, 1e-6);
+            format!("order={}", join(&ps, ";", |p| clean(&format!("{p:?}"))))
+        }
+        _ => "bad-probe".to_string(),
+    })
+    .unwrap_or_else(|| "panic".into())
+}
+
+fn probe_tag(kind: &str) -> &'static str {
+    match kind {
+        "ssgac" => "gac-sparseset-hash-order",
+        "precprops" => "precision-propagators-hash-order",
+        _ => "-",
+    }
+}
+
+fn do_probe(out: &mut Out, kind: &str, doms: &[Vec<i32>], reps: usize) {
+    let mut seen: Vec<String> = vec![];
+    for _ in 0..reps.max(1) {
+        let r = probe_once(kind, doms);
+        if !seen.contains(&r) {
+            seen.push(r);
+        }
+    }
+    seen.sort();
+    out.stat(&format!("probe.{kind}"));
+    let line = out.emit(format!("#det probe {kind} {reps} {}", show_doms(doms)), seen.join(" || "));
+    if seen.len() > 1 {
+        out.stat(&format!("probe.{kind}.order-dependent"));
+        out.fail(line, "C16", probe_tag(kind), format!("{} distinct outcomes of {reps} runs on fresh structures: {}", seen.len(), seen.join(" || ")));
+    }
+}
+
+fn probes(out: &mut Out, r: &mut Rng, count: u64, reps: usize) {
+    // the documented witness first (DESIGN.md D15): {0,2},{0,1}
+    out.case("detp-w");
+    for k in ["ssgac", "bsgac", "hygac", "precprops"] {
+        do_probe(out, k, &[vec![0, 2], vec![0, 1]], reps);
+    }
+    for i in 0..count {
+        out.case(&format!("detp{i}"));
+        let nv = r.range(2, 4) as usize;
+        let width = r.range(2, 4);
+        let doms: Vec<Vec<i32>> = (0..nv)
+            .map(|_| {
+                let mut d: Vec<i32> = (0..width).filter(|_| r.chance(3, 5)).map(|x| x as i32).collect();
+                if d.is_empty() { d.push(r.below(width as u64) as i32); }
+                d
+            })
+            .collect();
+        for k in ["ssgac", "bsgac", "hygac"] {
+            do_probe(out, k, &doms, reps);
+        }
+        if i % 16 == 0 {
+            do_probe(out, "precprops", &doms, reps);
+        }
+    }
+}
+
+// ------------------------------------------------------------------------------------------------
+// entry points
+// ------------------------------------------------------------------------------------------------
+fn arg(args: &[String], name: &str) -> Option<String> {
+    args.iter().position(|a| a == name).and_then(|i| args.get(i + 1)).cloned()
+}
+
+pub fn suite(out: &mut Out, seed: u64, count: u64, args: &[String]) {
+    if std::env::var("DET_TRACE").is_ok() {
+        std::panic::set_hook(Box::new(|i| eprintln!("{i}")));
+    }
+    let mut root = Rng::new(seed ^ STREAM);
+    if let Some(b) = arg(args, "--budget") {
+        BUDGET.store(b.parse().unwrap_or(600), std::sync::atomic::Ordering::Relaxed);
+    }
+    if let Some(b) = arg(args, "--wall") {
+        WALL_MS.store(b.parse().unwrap_or(5000), std::sync::atomic::Ordering::Relaxed);
+    }
+    if let Some(path) = arg(args, "--replay-ops") {
+        // re-run the lines of an .ops file verbatim (`bin/check --replay` needs main.rs to route
+        // `#det` lines to `replay_line`; until then this is the replay entry point)
+        for line in std::fs::read_to_string(&path).unwrap_or_default().lines() {
+            if let Some(id) = line.strip_prefix("case ") {
+                out.case(id);
+            } else {
+                replay_line(out, line);
+            }
+        }
+        return;
+    }
+    if let Some(reps) = arg(args, "--probe") {
+        let reps: usize = reps.parse().unwrap_or(32);
+        let mut r = root.fork();
+        probes(out, &mut r, count, reps);
+        return;
+    }
+    // the per-case generators are forked up front, in order; the cases then run on `--jobs`
+    // worker threads into private transcripts that are merged in case order, so the files do
+    // not depend on the scheduling
+    let jobs: usize = arg(args, "--jobs").and_then(|j| j.parse().ok()).unwrap_or(4).max(1);
+    let states: Vec<u64> = (0..count).map(|_| root.fork().0).collect();
+    let next = std::sync::atomic::AtomicUsize::new(0);
+    let done: std::sync::Mutex<Vec<Option<Out>>> = std::sync::Mutex::new((0..count).map(|_| None).collect());
+    std::thread::scope(|sc| {
+        for _ in 0..jobs {
+            sc.spawn(|| loop {
+                let i = next.fetch_add(1, std::sync::atomic::Ordering::Relaxed);
+                if i >= states.len() {
+                    break;
+                }
+                let mut o = Out::default();
+                run_case(&mut o, &mut Rng(states[i]), i as u64);
+                done.lock().unwrap()[i] = Some(o);
+            });
+        }
+    });
+    for o in done.into_inner().unwrap().into_iter().flatten() {
+        let off = out.ops.len();
+        out.ops.extend(o.ops);
+        out.imp.extend(o.imp);
+        out.oracle.extend(o.oracle.into_iter().map(|(l, p, t, d)| (l + off, p, t, d)));
+        for (k, v) in o.stats {
+            *out.stats.entry(k).or_insert(0) += v;
+        }
+        out.samples.extend(o.samples);
+    }
+}
 
 /// replay of one protocol line of this suite inside the current case
-pub fn replay_line(_out: &mut Out, _line: &str) {}
+pub fn replay_line(out: &mut Out, line: &str) {
+    let Some(rest) = line.strip_prefix("#det ") else { return };
+    if let Some(p) = rest.strip_prefix("probe ") {
+        let w: Vec<&str> = p.split_whitespace().collect();
+        if let (Some(kind), Some(reps), Some(doms)) = (w.first(), w.get(1).and_then(|x| x.parse().ok()), w.get(2).and_then(|d| parse_doms(d))) {
+            do_probe(out, kind, &doms, reps);
+            return;
+        }
+        out.emit(line, "bad-line");
+        return;
+    }
+    let parsed = rest.split_once(" | ").and_then(|(c, m)| Some((Call::parse(c)?, parse_model(m)?)));
+    match parsed {
+        Some((call, stmts)) => { do_call(out, &stmts, &call); }
+        None => { out.emit(line, "bad-line"); }
+    }
+}
